@@ -401,12 +401,12 @@ def zl(xs):
 
 
 def after_silence_flags(case, res):
-    """per executed step: 1 when the step hands over a message and the wire had been silent for more than H at some point
-    before the call (the property then allows closing with 4/0 as well as carrying on), else 0"""
+    """per executed step: 1 when the step hands over a message and, since the previous message handed over, the wire had
+    been silent for more than H at some point (the property then allows closing with 4/0 as well as carrying on), else 0"""
     H = case['H']
     out = []
-    for st, (tc, _) in zip(case['steps'], res['times']):
-        out.append(1 if (H > 0 and st[1] != 'none' and longest_wire_silence(case, tc) > H) else 0)
+    for st, (tc, _), since in zip(case['steps'], res['times'], handover_windows(case)):
+        out.append(1 if (H > 0 and st[1] != 'none' and longest_wire_silence(case, tc, since) > H) else 0)
     return out
 
 
@@ -603,12 +603,28 @@ def wire_arrivals(case):
     return out
 
 
-def longest_wire_silence(case, until):
-    """longest time without a message reaching the socket, up to `until`"""
-    last, longest = case['t_ka'], 0.0
-    for a in sorted(x for x in wire_arrivals(case) if x <= until):
+def longest_wire_silence(case, until, since=None):
+    """longest time without a message reaching the socket, in the window [since, until] (since: default the OPENCONFIRM
+    KEEPALIVE); messages still waiting in the socket count: they show the peer was sending"""
+    last, longest = (case['t_ka'] if since is None else since), 0.0
+    for a in sorted(x for x in wire_arrivals(case) if last <= x <= until):
         longest, last = max(longest, a - last), max(last, a)
     return max(longest, until - last)
+
+
+def handover_windows(case):
+    """per step: the reading at which the previous message handed over had reached the socket (start of the window in
+    which the hold timer has had no news)"""
+    t = case['t_main']
+    prev = case['t_ka']
+    out = []
+    for st in case['steps']:
+        t += st[0]
+        out.append(prev)
+        if st[1] != 'none':
+            prev = t - (st[3] if len(st) > 3 else 0.0)
+        t += st[2]
+    return out
 
 
 def oracle(case, res, objs):
@@ -639,7 +655,7 @@ def oracle(case, res, objs):
             elif H > 0 and (cd, sb) != (4, 0):
                 probs.append((f'wrong-notification:{cd}/{sb}', f'hold time {H}: NOTIFICATION {cd}/{sb} from the timers at step {i}', i))
             elif H > 0 and kind != 'none':
-                wire = longest_wire_silence(case, tc)
+                wire = longest_wire_silence(case, tc, handover_windows(case)[i])
                 if fields_of(objs[kind])[1] != 0:
                     sig = 'hold-early:received-update-not-counted'
                 elif wire <= H:
@@ -651,8 +667,8 @@ def oracle(case, res, objs):
                     sig = None
                 if sig:
                     probs.append((sig, f'hold time {H}: closed with 4/0 by a call that carries a message just read ({kind}); the previous '
-                                       f'call of the hold timer was {gap} s earlier (loop held up); the peer was never silent for more '
-                                       f'than {wire} s on the wire', i))
+                                       f'call of the hold timer was {gap} s earlier (loop held up); since the previous message it read the peer was '
+                                       f'never silent for more than {wire} s on the wire', i))
             elif H > 0 and not longest > H:
                 ignored = fields_of(objs[last_kind])[1] != 0
                 sig = 'hold-early:received-update-not-counted' if ignored else 'hold-early'
